@@ -228,7 +228,9 @@ def check_step(s0, s1, t1, cfg, tree_in_use, R, ctx, user_removed):
     if new:
         raise Violation("a particle appeared during a step: hashes %s" % sorted(new)[:5])
     gone = set(o0) - set(o1)
-    stamped = {h for h in o1 if s1["last_collision"][o1[h]] == t1} if cfg["collision"] != "none" else set()
+    # merger survivors: stamped with this step's time during this step (t1 can coincide with the initial stamp 0)
+    stamped = {h for h in o1 if h in o0 and s1["last_collision"][o1[h]] == t1 and s0["last_collision"][o0[h]] != t1} \
+        if cfg["collision"] != "none" else set()
     U1, status = predict(s0, cfg, tree_in_use, R)
     b = cfg["boundary"]
     # --- who is still there
